@@ -1,6 +1,71 @@
-(* C01 placeholder while the proofs are written *)
-From Coq Require Import ZArith List Bool.
+(* C01 - every submitted message gets exactly one, correctly attributed send outcome.
+   Model/Handlers.v + Model/Correlator.v (response handling, per-segment status, cumulated status, expiry) are tied to
+   esme.py/correlator.py by harness/C01.py and harness/C02.py: histories of puts, accepting / rejecting / nack responses and
+   time-outs are driven through the real handlers and compared event by event; whole sessions are checked by an oracle. *)
+From Coq Require Import ZArith QArith List Bool Lia.
 Import ListNotations.
-Require Import AV.Model.Base AV.Model.PyDict AV.Model.Correlator AV.Model.Handlers.
+Require Import AV.Generated.ExnOrder AV.Generated.SmppConsts AV.Generated.Handled
+               AV.Model.Base AV.Model.PyDict AV.Model.Limiter AV.Model.Correlator AV.Model.Seq AV.Model.Handlers
+               AV.Proofs.HandlersProofs AV.Proofs.OutcomeProofs.
 Open Scope Z_scope.
-Example C01_nonvacuous : True. Proof. exact I. Qed.
+
+(* one segmented message of ANY number k >= 2 of segments under ANY reference, ANY admissible interleaving of its events
+   (each segment: stored after its write, in the order sent; then accepted, rejected with any error status, answered by a
+   generic_nack, or timed out): the hooks see NO outcome while a segment is unprocessed, and EXACTLY ONE once all are -
+   carrying the message's log_id; it is the accepting submit_sm_resp iff every segment was accepted, otherwise a failure
+   (send_error, or a response that is a nack or carries an error status) *)
+Theorem C01_segmented_outcome :
+  forall r log k sq uid gs,
+  (2 <= k)%nat ->
+  (forall i j, (i < k)%nat -> (j < k)%nat -> sq i = sq j -> i = j) ->
+  ovalid k sq (fun _ => QNot) None gs ->
+  verdict log k (fst (ofinal (fun _ => QNot) None gs))
+          (concat (hrun_each hinit (map (oconc r log k sq uid) gs))).
+Proof. intros r log k sq uid gs Hk Hinj Hv. exact (outcome_exactly_once r log k sq uid Hk Hinj gs Hv). Qed.
+
+(* ... and the hooks see exactly the specified calls, event by event *)
+Theorem C01_event_by_event :
+  forall r log k sq uid gs s q lr,
+  (2 <= k)%nat ->
+  (forall i j, (i < k)%nat -> (j < k)%nat -> sq i = sq j -> i = j) ->
+  QI r log k sq uid s q lr -> ovalid k sq q lr gs ->
+  hrun_each s (map (oconc r log k sq uid) gs) = ospec log k q lr gs.
+Proof. intros r log k sq uid gs s q lr Hk Hinj. exact (o_run r log k sq uid Hk Hinj gs s q lr). Qed.
+
+(* a message that is not segmented: its response - whatever it is - reaches the received hook at once with the message's
+   identity, and its time-out reaches send_error with the message *)
+Theorem C01_plain_outcome :
+  (forall s r' mid e,
+     (rs_cmd r' = SmppCommand_SUBMIT_SM_RESP \/ rs_cmd r' = SmppCommand_GENERIC_NACK) ->
+     dget (rs_seq r') (c_store (h_corr s)) = Some e -> sm_cmd (e_msg e) = SmppCommand_SUBMIT_SM ->
+     dget (rs_seq r') (c_seg (h_corr s)) = None ->
+     snd (handle_response s r' mid) = [HResp (rs_uid r') (sm_log (e_msg e)) (rs_cmd r') (rs_status r')])
+  /\ (forall s sq e,
+        dget sq (c_store (h_corr s)) = Some e -> sm_cmd (e_msg e) = SmppCommand_SUBMIT_SM -> sm_seq (e_msg e) = sq ->
+        dget sq (c_seg (h_corr s)) = None ->
+        snd (hstep s (HExpire sq)) = [HSendError (sm_log (e_msg e))]).
+Proof. split; [exact plain_outcome | exact plain_timeout]. Qed.
+
+(* the status a message ends with: failed beats timed-out beats accepted *)
+Theorem C01_failure_wins :
+  forall k q, (2 <= k)%nat -> all_processed k q = true ->
+  (final_code k q = STATUS_SENT <-> forall i, (i < k)%nat -> q i = QOk).
+Proof. intros k q Hk. exact (all_ok_code k Hk q). Qed.
+
+Example C01_nonvacuous :
+  let seg i := {| sm_uid := 10 + i; sm_cmd := 4; sm_seq := 100 + i; sm_log := 7; sm_sar := (5, i, 3) |} in
+  (* three segments: the first is rejected, the second accepted, the third times out: one outcome, at the very end *)
+  ser_hrun [HPut (seg 1); HPut (seg 2); HPut (seg 3);
+            HResponse {| rs_uid := 21; rs_cmd := 2147483652; rs_seq := 101; rs_status := 88 |} 0;
+            HResponse {| rs_uid := 22; rs_cmd := 2147483652; rs_seq := 102; rs_status := 0 |} 502;
+            HExpire 103]
+  = [0; 0; 4; 7; -5; 1; 1; -7; -8; 101; 102; -9; -10; 502; 12]
+  /\ ovalid 3 (fun i => 101 + Z.of_nat i) (fun _ => QNot) None
+       [OPut 0; OPut 1; OPut 2;
+        OResp 0 {| rs_uid := 21; rs_cmd := 2147483652; rs_seq := 101; rs_status := 88 |} 0;
+        OResp 1 {| rs_uid := 22; rs_cmd := 2147483652; rs_seq := 102; rs_status := 0 |} 502;
+        OExpire 2].
+Proof.
+  split; [vm_compute; reflexivity|].
+  cbn. unfold qupd. cbn. repeat split; try lia; try reflexivity; try discriminate; try (left; reflexivity); intros; discriminate.
+Qed.
